@@ -75,12 +75,12 @@ pub fn check_relative(p: &str, b: &str) -> CaseResult {
 }
 
 fn deep_path() -> impl Strategy<Value = String> {
-    prop::collection::vec(prop::sample::select(&["a", "b", "ab", "a.b", "é", "éé", "日本", "d e", "..z", "😀", "~", "n~", "$HOME", "${HOME}", "$"][..]), 0..=12)
+    prop::collection::vec(prop::sample::select(&["a", "b", "ab", "a.b", "é", "éé", "日本", "d e", "..z", "😀", "~", "n~", "$HOME", "${HOME}", "$", "A", "B", "Ab"][..]), 0..=12)
         .prop_map(|v| if v.is_empty() { "/".to_string() } else { format!("/{}", v.join("/")) })
 }
 
 pub fn run(c: &Ctx) {
-    c.set_rule("exhaustive: all ordered pairs of the 121 clean absolute paths with <=4 components over {a,ab,b} (one name is a string prefix of another) and of the 40 with <=3 components over {~,$HOME,n~} (names are opaque to relative()); then seeded random pairs up to depth 12 over 15 names (multi-byte, spaces, dots, '~' and '$') with a shared random prefix in half of them. Oracle: result relative, (../)*normal*, clean(base/result)==path, #'..' == |base|-|common prefix|. Non-trivial = path!=base and the common prefix is shorter than both (needs '..' and normal parts); distinct by pair.");
+    c.set_rule("exhaustive: all ordered pairs of the 121 clean absolute paths with <=4 components over {a,ab,b} (one name is a string prefix of another) and of the 40 with <=3 components over {~,$HOME,n~} (names are opaque to relative()), of the 40 over {a,A,b} (case matters) and of the 15 over {a,b} below a real tmpfs directory where a is a symlink to b/b (the function is lexical: what exists on disk is irrelevant); then seeded random pairs up to depth 12 over 18 names (multi-byte, spaces, dots, '~' and '$') with a shared random prefix in half of them. Oracle: result relative, (../)*normal*, clean(base/result)==path, #'..' == |base|-|common prefix|. Non-trivial = path!=base and the common prefix is shorter than both (needs '..' and normal parts); distinct by pair.");
     let paths = all_paths(&["a", "ab", "b"], 4);
     let n = paths.len() as u64;
     par_for(n * n, 512, |i| {
@@ -110,7 +110,46 @@ pub fn run(c: &Ctx) {
         c.class("exhaustive:expansion-characters-in-names");
         c.judge("relative", &json!({"path":p,"base":b}), check_relative(p, b));
     });
-    c.note("exhaustive_space", format!("{} + {} ordered pairs", n * n, n2 * n2));
+    // names differing only in case are different names
+    let paths3 = all_paths(&["a", "A", "b"], 3);
+    let n3 = paths3.len() as u64;
+    par_for(n3 * n3, 512, |i| {
+        let (p, b) = (&paths3[(i / n3) as usize], &paths3[(i % n3) as usize]);
+        mark("relative", p);
+        c.eval(1);
+        let cm = common(p, b);
+        if p != b && cm < ncomps(p) && cm < ncomps(b) {
+            c.nontrivial(fp(&(p, b)));
+        }
+        c.class("exhaustive:case-variant-names");
+        c.judge("relative", &json!({"path":p,"base":b}), check_relative(p, b));
+    });
+    // purely lexical: the answer does not depend on what exists on disk. Paths below a real directory in
+    // which `a` is a symlink to the directory b/b and b/b/a exists
+    let sb = crate::sandbox::dir("c16");
+    let sbs = sb.to_str().unwrap().to_string();
+    let _ = std::fs::create_dir_all(sb.join("b/b/a"));
+    let _ = std::os::unix::fs::symlink("b/b", sb.join("a"));
+    let paths4: Vec<String> = all_paths(&["a", "b"], 3).into_iter().map(|p| if p == "/" { sbs.clone() } else { format!("{}{}", sbs, p) }).collect();
+    let n4 = paths4.len() as u64;
+    par_for(n4 * n4, 64, |i| {
+        let (p, b) = (&paths4[(i / n4) as usize], &paths4[(i % n4) as usize]);
+        mark("relative", p);
+        c.eval(1);
+        let cm = common(p, b);
+        if p != b && cm < ncomps(p) && cm < ncomps(b) {
+            c.nontrivial(fp(&(p, b)));
+        }
+        c.class("exhaustive:paths-that-exist-on-disk-behind-a-link");
+        let r = check_relative(p, b).map_err(|mut f| {
+            f.sig = format!("{}|paths-exist-on-disk", f.sig);
+            f.detail = format!("{} (with {}/a a symlink to b/b on disk)", f.detail, sbs);
+            f.with_case("relative-on-disk", json!({"path": p.strip_prefix(&sbs).unwrap_or(p), "base": b.strip_prefix(&sbs).unwrap_or(b)}))
+        });
+        c.judge("relative-on-disk", &json!(null), r);
+    });
+    crate::sandbox::cleanup();
+    c.note("exhaustive_space", format!("{} + {} + {} + {} ordered pairs", n * n, n2 * n2, n3 * n3, n4 * n4));
     c.set_exhaustive(true);
     let cases = c.tier.pick(100_000, 2_000_000);
     let strat = || {
@@ -141,6 +180,16 @@ pub fn run(c: &Ctx) {
 
 pub fn replay(kind: &str, case: &Value) -> Option<CaseResult> {
     match kind {
+        "relative-on-disk" => {
+            let sb = crate::sandbox::dir("c16");
+            let sbs = sb.to_str().unwrap().to_string();
+            let _ = std::fs::create_dir_all(sb.join("b/b/a"));
+            let _ = std::os::unix::fs::symlink("b/b", sb.join("a"));
+            let on = |p: &str| if p == "/" { sbs.clone() } else { format!("{}{}", sbs, p) };
+            let r = check_relative(&on(case["path"].as_str()?), &on(case["base"].as_str()?));
+            crate::sandbox::cleanup();
+            Some(r)
+        },
         "relative" => {
             if let Some(a) = case.as_array() {
                 Some(check_relative(a[0].as_str()?, a[1].as_str()?))
